@@ -208,6 +208,73 @@ def _base_provides(base: type, key: str) -> bool:
     return any(key in vars(klass) for klass in base.__mro__)
 
 
+def _is_wrapped_copy_of_inherited(klass: type, key: str) -> bool:
+    """
+    Check whether ``klass`` holds the member ``key`` only as an invariant-checking wrapper around an inherited function.
+
+    A class which declares the first invariants of its ancestry wraps the public functions it inherits and stores
+    the wrappers in its own dictionary. Such a class has not re-defined the member.
+    """
+    value = vars(klass)[key]
+    functions = (
+        [value.fget, value.fset, value.fdel] if isinstance(value, property) else [value]
+    )
+
+    for function in functions:
+        if function is None:
+            continue
+
+        if not getattr(function, "__is_invariant_check__", False):
+            return False
+
+        wrapped = getattr(function, "__wrapped__", None)
+        found_in_ancestor = False
+        for ancestor in klass.__mro__[1:]:
+            ancestor_value = vars(ancestor).get(key, None)
+            candidates = (
+                [ancestor_value.fget, ancestor_value.fset, ancestor_value.fdel]
+                if isinstance(ancestor_value, property)
+                else [ancestor_value]
+            )
+            if any(candidate is wrapped for candidate in candidates if candidate is not None):
+                found_in_ancestor = True
+                break
+
+        if not found_in_ancestor:
+            return False
+
+    return True
+
+
+def _providing_bases(bases: List[type], key: str) -> List[type]:
+    """
+    Determine the classes from which the contracts of the member ``key`` are inherited.
+
+    A base which defines the member itself hands on the contracts collapsed into its member. A base which does *not*
+    define it (a "gap" in the hierarchy) hands on what *all* its bases hand on, and not only the contracts of the one
+    implementation that the method resolution order picks for the base: the class at hand is a sub-type of all of them.
+    """
+    result = []  # type: List[type]
+
+    def visit(klass: type) -> None:
+        defines_itself = key in vars(klass) and not _is_wrapped_copy_of_inherited(
+            klass=klass, key=key
+        )
+        if defines_itself or not _base_provides(klass, key):
+            if klass not in result:
+                result.append(klass)
+            return
+
+        for klass_base in klass.__bases__:
+            if _base_provides(klass_base, key):
+                visit(klass_base)
+
+    for base in bases:
+        visit(base)
+
+    return result
+
+
 def _is_function_of_base_or_ancestor(
     bases: List[type], contract_checker: Callable[..., Any]
 ) -> bool:
@@ -290,7 +357,7 @@ def _decorate_namespace_function(
         # True if one of the bases provides the function without any precondition, *i.e.*, accepts all the input
         base_accepts_all = False
 
-        for base in bases:
+        for base in _providing_bases(bases=bases, key=key):
             if _base_provides(base, key):
                 bases_have_func = True
 
@@ -437,7 +504,7 @@ def _decorate_namespace_property(
         # True if the accessor is the very accessor of one of the bases
         inherited_as_is = False
 
-        for base in bases:
+        for base in _providing_bases(bases=bases, key=key):
             if _base_provides(base, key):
                 base_property = getattr(base, key)
                 if not isinstance(base_property, property):
